@@ -8,7 +8,9 @@ Rules
          nothing; the digest looked up is that of the bytes stored (same object: image.sha1 / image.blob)
   R15.3  the part's extension and content type come from the detected format (Image.ext / Image.content_type), not from
          the file name; ImagePart.new passes image.blob unchanged
-  (byte equality, DPI and scaling arithmetic: not decided)
+  R15.4  axis pairing: the native width is computed from the horizontal dpi and the pixel width, the native height from the
+         vertical dpi and the pixel height (component-wise dependency analysis through tuple unpacking and indexing)
+  (byte equality, DPI normalisation values and scaling arithmetic: not decided)
 """
 
 from __future__ import annotations
@@ -158,7 +160,42 @@ def run(ctx):
         if finds and news and finds[0].args and isinstance(finds[0].args[0], ast.Attribute) and finds[0].args[0].attr == "sha1":
             obj = dotted(finds[0].args[0].value)
             same = any(dotted(a) == obj for a in news[0].args)
-        if ok and guarded and same:
+        # provenance of the returned part: only the package-wide scan or a new part (a private memo would go stale
+        # when a part leaves the package)
+        def origins(e, depth=0):
+            if e is None or depth > 4:
+                return {"?"}
+            if e in finds:
+                return {"scan"}
+            if e in news:
+                return {"new"}
+            if isinstance(e, ast.IfExp):
+                return origins(e.body, depth + 1) | origins(e.orelse, depth + 1)
+            if isinstance(e, ast.BoolOp):
+                out = set()
+                for v_ in e.values:
+                    out |= origins(v_, depth + 1)
+                return out
+            if isinstance(e, ast.Name):
+                defs = [n.value for n in walk_own(f.node) if isinstance(n, ast.Assign) and any(isinstance(t, ast.Name) and t.id == e.id for t in n.targets)]
+                if not defs:
+                    return {"?" + e.id}
+                out = set()
+                for d in defs:
+                    out |= origins(d, depth + 1)
+                return out
+            return {ast.unparse(e)[:50]}
+
+        rets = [n.value for n in walk_own(f.node) if isinstance(n, ast.Return)]
+        org = set()
+        for r in rets:
+            org |= origins(r)
+        foreign = sorted(o for o in org if o not in ("scan", "new"))
+        if ok and guarded and same and foreign:
+            ctx.violation("R15.2", key + ":origin", "the returned part can come from %s, not only from the package-wide SHA1 scan or a new part: "
+                          "a remembered part that has since left the package is handed out again under a name that may have been reused"
+                          % foreign, file=f.file, line=f.line)
+        elif ok and guarded and same:
             ctx.ok("R15.2", key, sample={"lookup": ast.unparse(finds[0]), "create": ast.unparse(news[0]), "guard": "only when not found"})
         else:
             ctx.violation("R15.2", key, "creation of a %s is not guarded by a SHA1 lookup of the same object (lookup=%s guarded=%s "
@@ -306,3 +343,103 @@ def run(ctx):
         else:
             ctx.violation("R15.3", key, "part does not store / return its blob unchanged (stored from %r, blob returns %s)" % (
                 p, [ast.unparse(r) for r in rets]), file=c.file, line=c.line)
+
+
+    # -- R15.4 -------------------------------------------------------------------------------------------
+    ctx.rule("R15.4", "native size pairs (horizontal dpi, pixel width) and (vertical dpi, pixel height)")
+    TUPLES = {"self._dpi": "dpi", "image.dpi": "dpi", "self._px_size": "px", "image.size": "px", "self._pil_props[1]": "px"}
+
+    def comp_deps(fnode, tuples):
+        """name -> set of (source, index) atoms, through tuple unpacking, indexing and arithmetic; returns the dependency
+        sets of the elements of the returned tuple."""
+        env = {}
+
+        def deps(e):
+            src = ast.unparse(e)
+            if src in tuples:
+                return ("tuple", tuples[src])
+            if isinstance(e, ast.Subscript) and isinstance(e.slice, ast.Constant) and isinstance(e.slice.value, int):
+                b = deps(e.value)
+                if isinstance(b, tuple) and b[0] == "tuple":
+                    return {(b[1], e.slice.value)}
+                if isinstance(b, tuple) and b[0] == "elts":
+                    return b[1][e.slice.value] if e.slice.value < len(b[1]) else set()
+            if isinstance(e, ast.Name):
+                return env.get(e.id, set())
+            if isinstance(e, ast.Tuple):
+                return ("elts", [deps(y) for y in e.elts])
+            out = set()
+            for c in ast.iter_child_nodes(e):
+                if isinstance(c, ast.expr):
+                    d = deps(c)
+                    if isinstance(d, set):
+                        out |= d
+                    elif isinstance(d, tuple) and d[0] == "tuple":
+                        out |= {(d[1], 0), (d[1], 1)}
+                    elif isinstance(d, tuple) and d[0] == "elts":
+                        for x in d[1]:
+                            out |= x if isinstance(x, set) else ({(x[1], 0), (x[1], 1)} if x[0] == "tuple" else set())
+            return out
+
+        def bind(t, v):
+            if isinstance(t, ast.Name):
+                env[t.id] = v if isinstance(v, (set, tuple)) else set()
+            elif isinstance(t, ast.Tuple):
+                for i_, te in enumerate(t.elts):
+                    if isinstance(v, tuple) and v[0] == "tuple":
+                        bind(te, {(v[1], i_)})
+                    elif isinstance(v, tuple) and v[0] == "elts" and i_ < len(v[1]):
+                        bind(te, v[1][i_])
+                    else:
+                        bind(te, v if isinstance(v, set) else set())
+
+        def name_val(v):
+            return v
+
+        for st in fnode.body:
+            if isinstance(st, ast.Assign) and len(st.targets) == 1:
+                v = deps(st.value)
+                # tuple-valued right-hand side kept symbolic for names, so that x[0] / unpacking still resolve
+                if isinstance(st.targets[0], ast.Name) and isinstance(v, tuple):
+                    env[st.targets[0].id] = v
+                else:
+                    bind(st.targets[0], v)
+            elif isinstance(st, ast.Return) and st.value is not None:
+                r = deps(st.value)
+                if isinstance(r, tuple) and r[0] == "elts":
+                    return r[1]
+                return None
+        return None
+
+    # names bound to tuple-valued sources must resolve through Name lookups too
+    ns = prog.func("pptx.parts.image", "ImagePart._native_size")
+    # allow `image = Image.from_blob(self._blob)` style locals: image.dpi / image.size are in TUPLES by text
+    r = comp_deps(ns.node, TUPLES)
+
+    def flat(x):
+        return x if isinstance(x, set) else set()
+
+    if r is None or len(r) != 2:
+        ctx.error("ImagePart._native_size", "returned (width, height) pair not recognised")
+    else:
+        w, h = flat(r[0]), flat(r[1])
+        if w == {("dpi", 0), ("px", 0)} and h == {("dpi", 1), ("px", 1)}:
+            ctx.ok("R15.4", "ImagePart._native_size", sample={"width_from": sorted(w), "height_from": sorted(h)})
+        else:
+            ctx.violation("R15.4", "ImagePart._native_size", "native width depends on %s and height on %s; expected (horizontal dpi, pixel width) and "
+                          "(vertical dpi, pixel height): an image with different horizontal and vertical resolution gets the wrong aspect ratio"
+                          % (sorted(w), sorted(h)), file=ns.file, line=ns.line)
+    # Image.dpi: component k of the normalised dpi comes from component k of Pillow's dpi
+    dp = img.methods.get("dpi")
+    norm_fn = [n for n in ast.walk(dp.node) if isinstance(n, ast.FunctionDef) and n.name == "normalize_pil_dpi"] if dp else []
+    good = False
+    if norm_fn:
+        pn = norm_fn[0].args.args[0].arg
+        r2 = comp_deps(ast.Module(body=[st for st in ast.walk(norm_fn[0]) if isinstance(st, ast.Return) and isinstance(st.value, ast.Tuple)
+                                        and not all(isinstance(e, ast.Constant) for e in st.value.elts)][:1], type_ignores=[]), {pn: "pil"})
+        good = r2 is not None and len(r2) == 2 and flat(r2[0]) == {("pil", 0)} and flat(r2[1]) == {("pil", 1)}
+    if good:
+        ctx.ok("R15.4", "Image.dpi", sample={"horz": "pil_dpi[0]", "vert": "pil_dpi[1]"})
+    else:
+        ctx.violation("R15.4", "Image.dpi", "normalised (horz, vert) dpi is not taken component-wise from Pillow's dpi", file=img.file,
+                      line=dp.line if dp else img.line)
